@@ -120,6 +120,8 @@ static void vi_drawfix(int r1, int r2, int n, int preview)
 	int i;
 	if (preview && r1 < xtop)
 		xtop = r1;
+	if (r1 < xtop)		/* the new lines above the window are not on the screen */
+		n = MAX(0, n - (xtop - r1));
 	r1 = MIN(MAX(r1, xtop), xtop + xrows - 1);
 	r2 = MIN(MAX(r2, xtop), xtop + xrows - 1);
 	term_record();
